@@ -179,6 +179,9 @@ func (p c03) Run(w *mon.Worker, idx int) mon.Result {
 	if idx%45 == 17 {
 		return c03MergeKeyCase(r)
 	}
+	if idx%30 == 11 {
+		return c03NeutralCase(r, idx)
+	}
 	pr := gen.Default()
 	pr.NoBigInt, pr.SmallInts = true, true
 	pr.MaxDepth = 2 + r.IntN(3)
